@@ -1840,3 +1840,4 @@ def replay(ctx, payload):
     ctx.extra["rule"] = RULE
     eval_cases(ctx, [payload["case"]])
 THEOREMS += ['gen_routes_is_link', 'gen_routes_is_core', 'gen_routes_core_num', 'gen_routes_opposite', 'gen_routes_core']   # translator tie: generated function bodies = model (Props/C04Gen.lean)
+THEOREMS += ['gen_get_common_xs', 'gen_get_insertion_index']   # translator tie, second round (Props/C04Gen.lean)
